@@ -28,6 +28,8 @@ Record mst := mkM {
   npos : Z;             (* offset of the descriptor of the open node *)
   tab : tabf;
   pending : bytes;      (* client block read ahead and not yet consumed *)
+  powner : nat;         (* ghost: the node whose read callback handed out [pending]; the block lives in
+                           that node's buffer, which is released when the node is closed *)
   meof : bool;          (* filter->end_of_file *)
   fpos : Z              (* filter->position *)
 }.
@@ -37,13 +39,13 @@ Definition node (s : mst) (i : nat) : bytes := nth i (nodes s) [].
 Definition nsize (s : mst) (i : nat) : Z := zlen (node s i).
 
 Definition with_client (s : mst) (c : nat) (p : Z) : mst :=
-  mkM (nodes s) (bsz s) c p (tab s) (pending s) (meof s) (fpos s).
+  mkM (nodes s) (bsz s) c p (tab s) (pending s) (powner s) (meof s) (fpos s).
 
 (* client_switch_proxy: nothing when already there, else close + open (offset 0); the block the old
    node handed out dies with it (client_buff/client_avail are cleared) *)
 Definition switch (s : mst) (i : nat) : mst :=
   if Nat.eqb (cursor s) i then s
-  else mkM (nodes s) (bsz s) i 0 (tab s) [] (meof s) (fpos s).
+  else mkM (nodes s) (bsz s) i 0 (tab s) [] (powner s) (meof s) (fpos s).
 
 (* the read loop of __archive_read_filter_ahead at the client: a zero-length read on a node that is
    not the last one switches to the next node and retries; on the last node it is end of file *)
@@ -53,10 +55,10 @@ Fixpoint mread_loop (fuel : nat) (s : mst) : bytes * mst :=
   | S f =>
     let blk := firstn (bsz s) (skipn (Z.to_nat (npos s)) (node s (cursor s))) in
     match blk with
-    | _ :: _ => (blk, with_client s (cursor s) (npos s + zlen blk))
+    | _ :: _ => (blk, mkM (nodes s) (bsz s) (cursor s) (npos s + zlen blk) (tab s) (pending s) (cursor s) (meof s) (fpos s))
     | [] =>
       if Nat.eqb (S (cursor s)) (nnodes s) then
-        ([], mkM (nodes s) (bsz s) (cursor s) (npos s) (tab s) (pending s) true (fpos s))
+        ([], mkM (nodes s) (bsz s) (cursor s) (npos s) (tab s) (pending s) (powner s) true (fpos s))
       else mread_loop f (switch s (S (cursor s)))
     end
   end.
@@ -64,26 +66,26 @@ Definition mread (s : mst) : bytes * mst := mread_loop (nnodes s) s.
 
 (* archive_read_open1: probe one block (choose_filters), then go back to node 0 unless data is buffered *)
 Definition mopen (ns : list bytes) (bs : nat) : mst :=
-  let s0 := mkM ns bs 0 0 tab0 [] false 0 in
+  let s0 := mkM ns bs 0 0 tab0 [] 0 false 0 in
   let '(blk, s1) := mread s0 in
-  let s2 := mkM (nodes s1) (bsz s1) (cursor s1) (npos s1) (tab s1) blk (meof s1) 0 in
+  let s2 := mkM (nodes s1) (bsz s1) (cursor s1) (npos s1) (tab s1) blk (powner s1) (meof s1) 0 in
   match blk with [] => switch s2 0 | _ => s2 end.
 
 (* ahead(1) + consume(avail) *)
 Definition read_block (s : mst) : bytes * mst :=
   match pending s with
-  | _ :: _ => (pending s, mkM (nodes s) (bsz s) (cursor s) (npos s) (tab s) [] (meof s) (fpos s + zlen (pending s)))
+  | _ :: _ => (pending s, mkM (nodes s) (bsz s) (cursor s) (npos s) (tab s) [] (powner s) (meof s) (fpos s + zlen (pending s)))
   | [] =>
     if meof s then ([], s)
     else let '(blk, s1) := mread s in
-         (blk, mkM (nodes s1) (bsz s1) (cursor s1) (npos s1) (tab s1) [] (meof s1) (fpos s1 + zlen blk))
+         (blk, mkM (nodes s1) (bsz s1) (cursor s1) (npos s1) (tab s1) [] (powner s1) (meof s1) (fpos s1 + zlen blk))
   end.
 
 (* the net effect of the client_switch_proxy calls of a seek loop that visits nodes c1, c1+1, .., c2
    and ends with a SEEK_END on c2: the buffered block survives only if no call changed the node *)
 Definition moved_to (s : mst) (c1 c2 : nat) (p : Z) : mst :=
   mkM (nodes s) (bsz s) c2 p (tab s)
-      (if Nat.eqb (cursor s) c1 && Nat.eqb c1 c2 then pending s else []) (meof s) (fpos s).
+      (if Nat.eqb (cursor s) c1 && Nat.eqb c1 c2 then pending s else []) (powner s) (meof s) (fpos s).
 
 (* ---- __archive_read_filter_seek ---- *)
 (* SEEK_SET, first loop: walk over nodes whose extent is already known *)
@@ -123,14 +125,16 @@ Fixpoint end_loop2 (fuel n : nat) (size : nat -> Z) (tb : tabf) (c : nat) : tabf
     if (n <=? c + 1)%nat then (tb1, c, r)
     else end_loop2 f n size (upd_b tb1 (S c) r) (S c)
   end.
-Fixpoint end_loop3 (fuel : nat) (tb : tabf) (c : nat) (r off : Z) : nat * Z * Z :=
+(* third loop: walk back from the last node to the one holding the target; None = the target lies
+   before the first byte (the code returns ARCHIVE_FATAL), also the error value for exhausted fuel *)
+Fixpoint end_loop3 (fuel : nat) (tb : tabf) (c : nat) (r off : Z) : option (nat * Z * Z) :=
   match fuel with
-  | O => (c, r, off)
+  | O => None
   | S f =>
-    if r + off >=? fst (tb c) then (c, r, off)
+    if r + off >=? fst (tb c) then Some (c, r, off)
     else let off1 := off + snd (tb c) in
          match c with
-         | O => (c, r, off1)
+         | O => None
          | S c' => end_loop3 f tb c' (fst (tb c') + snd (tb c')) off1
          end
   end.
@@ -140,11 +144,11 @@ Definition node_seek_set (o : Z) : Z := if o <? 0 then M_FATAL else o.
 
 Definition finish_seek (s : mst) (tb : tabf) (c : nat) (o : Z) : Z * mst :=
   let r0 := node_seek_set o in
-  if r0 <? 0 then (r0, mkM (nodes s) (bsz s) c (npos s) tb (pending s) (meof s) (fpos s))
+  if r0 <? 0 then (r0, mkM (nodes s) (bsz s) c (npos s) tb (pending s) (powner s) (meof s) (fpos s))
   else
     let r := r0 + fst (tb c) in
-    if r >=? 0 then (r, mkM (nodes s) (bsz s) c o tb [] false r)
-    else (r, mkM (nodes s) (bsz s) c o tb (pending s) (meof s) (fpos s)).
+    if r >=? 0 then (r, mkM (nodes s) (bsz s) c o tb [] (powner s) false r)
+    else (r, mkM (nodes s) (bsz s) c o tb (pending s) (powner s) (meof s) (fpos s)).
 
 Definition seek_set (s : mst) (off : Z) : Z * mst :=
   let n := nnodes s in
@@ -153,17 +157,23 @@ Definition seek_set (s : mst) (off : Z) : Z * mst :=
   let o := off - fst (tb2 c2) in
   let s2 := moved_to s c1 c2 (nsize s c2) in
   if (o <? 0) || (o >? snd (tb2 c2)) then
-    (M_FATAL, mkM (nodes s2) (bsz s2) c2 (npos s2) tb2 (pending s2) (meof s2) (fpos s2))
+    (M_FATAL, mkM (nodes s2) (bsz s2) c2 (npos s2) tb2 (pending s2) (powner s2) (meof s2) (fpos s2))
   else finish_seek s2 tb2 c2 o.
 
 Definition seek_end (s : mst) (off : Z) : Z * mst :=
   let n := nnodes s in
   let '(tb1, c1) := end_loop1 n n (tab s) 0%nat in
   let '(tb2, c2, r) := end_loop2 n n (nsize s) tb1 c1 in
-  let '(c3, r3, off3) := end_loop3 n tb2 c2 r off in
-  let o := (r3 + off3) - fst (tb2 c3) in
-  (* the client sits at the end of node c2; client_switch_proxy(c3) reopens when c3 <> c2 *)
-  finish_seek (switch (moved_to s c1 c2 (nsize s c2)) c3) tb2 c3 o.
+  (* the client now sits at the end of node c2 *)
+  let s2 := moved_to s c1 c2 (nsize s c2) in
+  let refused := (M_FATAL, mkM (nodes s2) (bsz s2) c2 (npos s2) tb2 (pending s2) (powner s2) (meof s2) (fpos s2)) in
+  match end_loop3 n tb2 c2 r off with
+  | None => refused
+  | Some (c3, r3, off3) =>
+    let o := (r3 + off3) - fst (tb2 c3) in
+    if o >? snd (tb2 c3) then refused      (* beyond the last byte *)
+    else finish_seek (switch s2 c3) tb2 c3 o   (* client_switch_proxy(c3) reopens when c3 <> c2 *)
+  end.
 
 (* whence: 0 SEEK_SET, 1 SEEK_CUR, 2 SEEK_END, anything else is refused *)
 Definition mseek (s : mst) (off whence : Z) : Z * mst :=
